@@ -402,14 +402,15 @@ pub fn run(ctx: &Ctx) -> Report {
     let thorough = !ctx.quick();
     let nrec = records().len();
     // full product over (record, layout(8), naming(8), nesting(3)); the remaining axes rotate with the permutation index
-    let n_order = if thorough { 720 } else { 12 };
+    // thorough: every second permutation per (record, naming) combination, the parity alternating, so that all 720 orders occur
+    let n_order = if thorough { 360 } else { 12 };
     let sizes = [nrec, 8, NAMINGS.len(), 3, n_order];
     let n = par::product(&sizes);
     let mut rep = par::run(n, |idx, r| {
         let mut ix = [0usize; 5];
         par::decode(idx, &sizes, &mut ix);
         let k = ix[4];
-        let order = if thorough { k } else { (k * 60 + ix[0] * 7 + ix[2] * 11 + ix[1]) % 720 };
+        let order = if thorough { 2 * k + (ix[0] + ix[2]) % 2 } else { (k * 60 + ix[0] * 7 + ix[2] * 11 + ix[1]) % 720 };
         let c = Case {
             rec: ix[0],
             c2_on_x: ix[1] & 1 != 0,
